@@ -542,8 +542,11 @@ namespace
           struct TV { std::string name; std::vector<std::pair<Index, double>> nz; };
           std::vector<TV> tvs;
           { TV z; z.name = "zero vector"; tvs.push_back(z); }
-          const uint64_t budget = c.thorough ? 65536u : 4096u; // fine-cell visits spent on unit vectors per case
-          const Index nunit = Index(std::min<uint64_t>(uint64_t(nc), std::max<uint64_t>(6u, budget / std::max<uint64_t>(1u, uint64_t(ncell_f)))));
+          // work of one call ~ #fine cells * (local dofs)^3 (local mass matrix inversion per child cell); unit 64 = one bilinear quad
+          const uint64_t nl = uint64_t(SpaceEval::max_local_dofs);
+          const uint64_t work = std::max<uint64_t>(1u, (uint64_t(ncell_f) * nl * nl * nl) / 64u);
+          const uint64_t budget = c.thorough ? 16384u : 4096u;
+          const Index nunit = Index(std::min<uint64_t>(uint64_t(nc), std::max<uint64_t>(6u, budget / work)));
           {
             Index lastj = ~Index(0);
             for(Index q = 0; q < nunit; ++q)
@@ -559,7 +562,7 @@ namespace
             // coarse-cell supported vectors: first, middle and last coarse cell (all cells in the thorough tier if few)
             DofMapping dmc(space_c);
             std::vector<Index> cells;
-            if(c.thorough && ncell_c <= 16) for(Index cc = 0; cc < ncell_c; ++cc) cells.push_back(cc);
+            if(c.thorough && ncell_c <= 8) for(Index cc = 0; cc < ncell_c; ++cc) cells.push_back(cc);
             else { cells.push_back(0); if(ncell_c > 2) cells.push_back(ncell_c / 2); if(ncell_c > 1) cells.push_back(ncell_c - 1); }
             for(Index cc : cells)
             {
@@ -718,7 +721,7 @@ int main(int argc, char** argv)
   spec.assumptions = {
     "FEAT space evaluators and dof mappings are used to evaluate basis functions (checked by C15); the trafo is inverted by an own Newton iteration",
     "meshes are permuted after refinement (the convention GridTransfer's 2-level lookup is written for)",
-    "matrix-free prolongation is called for all coarse unit vectors where #coarse dofs * #fine cells <= 4096 (quick) / 65536 (thorough), else for an evenly spaced sub-family (>= 6, incl. first and last), plus zero, dense and coarse-cell supported vectors", "tolerances: exactness 2e-11 absolute on O(1) basis values (local mass matrix inversion), T*P=I 2e-10, matrix-free vs matrix 1e-12 relative, Transfer vs dense product 64 eps relative; transpose is compared bitwise",
+    "matrix-free prolongation is called for all coarse unit vectors where #coarse dofs * #fine cells * (local dofs)^3/64 <= 4096 (quick) / 16384 (thorough), else for an evenly spaced sub-family (>= 6, incl. first and last), plus zero, dense and coarse-cell supported vectors (first/middle/last coarse cell; all cells of meshes with <= 8 cells in the thorough tier)", "tolerances: exactness 2e-11 absolute on O(1) basis values (local mass matrix inversion), T*P=I 2e-10, matrix-free vs matrix 1e-12 relative, Transfer vs dense product 64 eps relative; transpose is compared bitwise",
     "Global::Transfer / Muxer (MPI) is outside this harness (C13)",
     "non-nested spaces (Crouzeix-Raviart, Rannacher-Turek, P2-bubble, parametric discontinuous P1 on non-parallelograms) are excluded"};
 
